@@ -371,7 +371,8 @@ class TokenizerState:
         contline = endprog.contline
         if self.lnum != endprog.start[0]:  # token ends on a later line than it started on
             contline += self.line
-        return TokenInfo(tok, endprog.text, endprog.start, epos, contline)
+        # an empty part (the closing literal of a format spec) sits where it ends, not where the spec began
+        return TokenInfo(tok, endprog.text, endprog.start if endprog.text else epos, epos, contline)
 
     def match(self, pattern: str | re.Pattern[str]) -> re.Match[str] | None:
         pattern = _compile(pattern) if isinstance(pattern, str) else pattern
@@ -668,6 +669,9 @@ def handle_end_progs(state: TokenizerState) -> Iterator[TokenInfo]:
         (state.pos == 0 and state.in_colon())  # format spec continued at the start of the line
         or ((state.in_multi_line_string()) or (state.in_continued_string()))
     ):
+        if state.in_colon() and not state.end_progs[-1].text:
+            # the rest of the previous line was lexed on its own: this part of the spec starts here
+            state.end_progs[-1].reset((state.lnum, state.pos), "")
         state.end_progs[-1].join_line(state)
         state.pos = state.max
     elif not state.in_colon():  # nothing matched and the line does not continue
